@@ -850,6 +850,12 @@ class Unit:
     def register_fn(self, fid, kind, obj, clauses, props, lemma=False):
         if fid in self.fns:
             raise ValueError("duplicate function id " + fid)
+        # a clause without explicit properties belongs to the function's properties plus the
+        # property ids its label starts with ("C03-texts-move-to-orphans" -> C03)
+        for c in clauses:
+            if not c.props:
+                toks = re.match(r"((?:C\d\d-)*)", c.label).group(1).strip("-").split("-")
+                c.props = sorted(set(props) | set(t for t in toks if t))
         self.fns[fid] = {"kind": kind, "clauses": {c.label: c for c in clauses}, "props": props,
                          "lemma": lemma, "obj": obj}
 
